@@ -227,7 +227,8 @@ func ruleC10HandlerTotal(c *Ctx) {
 	}
 }
 
-var goAllowList = map[string]bool{"(*sync.WaitGroup).Wait": true, "(*sync.WaitGroup).Done": true, "(*sync.WaitGroup).Add": true}
+var goAllowList = map[string]bool{"(*sync.WaitGroup).Wait": true, "(*sync.WaitGroup).Done": true, "(*sync.WaitGroup).Add": true,
+	"builtin:len": true} // len never panics (the header of a range over a slice)
 
 func ruleC10GoClosures(c *Ctx) {
 	c.Doc("c10.go-closure", "every `go` statement in the module starts a function that either defers a recover handler before anything that can panic, or calls nothing but sync.WaitGroup methods; if it signals a WaitGroup, Done is deferred (or nothing else is called), so a recovered panic cannot leave Wait blocked; wg.Add precedes the go statement")
@@ -281,6 +282,12 @@ func ruleC10GoClosures(c *Ctx) {
 					case *ssa.Index, *ssa.IndexAddr, *ssa.Slice, *ssa.MapUpdate, *ssa.Lookup:
 						// may panic (bounds, nil map)
 						if _, isLookup := tin.(*ssa.Lookup); !isLookup {
+							// the element read of `for _, x := range s` is in bounds by construction
+							if ia, isIA := tin.(*ssa.IndexAddr); isIA {
+								if _, why := fullRangeIndex(ia); why == "" {
+									break
+								}
+							}
 							onlyAllowed, other = false, "index/slice/map update"
 						}
 					}
